@@ -184,7 +184,9 @@ func validateFlags() []error {
 	}
 
 	// We limit qps to < 1000 to ensure we don't overload Spanner accidentally.
-	if *qps <= 0 || *qps > 1000 {
+	// The condition is written so that NaN is rejected as well, and the lower bound keeps the
+	// probe interval (1s / qps) representable as a time.Duration.
+	if !(*qps >= 1e-9 && *qps <= 1000) {
 		errs = append(errs, fmt.Errorf("qps must be 1 <= qps <= 1000, was %v", *qps))
 	}
 
